@@ -27,7 +27,7 @@ RULE = (
 CLASSES = [
     "int_float_same_key", "bool_int_same_key", "neg_zero", "list_values", "partial_key",
     "scalar_vs_mapping", "empty_mapping_leaf", "subset_ids", "subset_jobs", "subset_unknown_id",
-    "exclude_const_hit", "diff_0", "diff_1", "diff_many", "zero_jobs", "one_job",
+    "exclude_const_hit", "diff_0", "diff_1", "diff_many", "zero_jobs", "one_job", "removed_after_warm_up",
 ]
 ASSUMPTIONS = [
     "schema values are grouped by exact Python type (bool, int, float, str, tuple for lists, NoneType)",
@@ -36,7 +36,7 @@ ASSUMPTIONS = [
 ]
 
 VALUES = [1, 1.0, True, 0, False, 0.0, -0.0, "1", None, [1, 2], [1.0, 2], [], {"x": 1}, {}, 2, "ab",
-          [{"x": 1, "y": 2}], [{"y": 2, "x": 1}]]  # the last two: equal lists of mappings written in different key order
+          [{"x": 1, "y": 2}], [{"y": 2, "x": 1}], [1, [2, 3]], ["a", {"x": 1}, []]]  # the last two: equal lists of mappings written in different key order
 KEYS = ["a", "b", "n", "l", "s", "pressure", "sp_x", "ps"]  # incl. names starting with the letters of the internal "sp." prefix
 
 
@@ -76,6 +76,7 @@ def cases(draw):
         "subset": subset,
         "subset_kind": draw(st.sampled_from(["ids", "jobs"])),
         "exclude_const": draw(st.booleans()),
+        "removed": draw(st.lists(st.integers(0, 8), max_size=2)) if draw(st.integers(0, 3)) == 0 else [],
         "diffs": diffs,
     }
 
@@ -202,7 +203,20 @@ def run_case(case, ctx):
     # ---- detect_schema ------------------------------------------------------
     project = signac.Project(d)
     subset = case.get("subset")
-    sel = uniq
+    removed = sorted({i % n for i in case.get("removed", []) if isinstance(i, int)}) if n else []
+    if removed:
+        # the session has already looked at every job (its cache knows them); then some jobs are removed:
+        # "the selected jobs" are the ones that exist, also when the selection still names the removed ones
+        cl.add("removed_after_warm_up")
+        try:
+            project.detect_schema()
+            for i in removed:
+                project.open_job(id=ids[i]).remove()
+        except Exception as e:
+            mms.append(Mismatch("schema_raises", f"detect_schema() / job.remove() of the warm-up raised {type(e).__name__}: {e} for {uniq!r}"))
+            return {"mismatches": mms, "classes": sorted(cl), "nontrivial": False}
+    gone = {ids[i] for i in removed}
+    sel = [sp for sp, i in zip(uniq, ids) if i not in gone]
     arg = None
     if subset is not None and n:
         idx = [i for i in subset if isinstance(i, int)]
@@ -215,7 +229,7 @@ def run_case(case, ctx):
             else:
                 cl.add("subset_unknown_id")
                 arg.append("f" * 32 if i == n else "0123")
-        sel = [sp for sp, i in zip(uniq, ids) if i in set(sel_ids)]
+        sel = [sp for sp, i in zip(uniq, ids) if i in set(sel_ids) and i not in gone]
         cl.add("subset_ids" if case.get("subset_kind") == "ids" else "subset_jobs")
     for exclude_const in (bool(case.get("exclude_const")), not bool(case.get("exclude_const"))):
         exp = expected_schema(sel, exclude_const)
@@ -304,6 +318,8 @@ CONSTRUCTED = [
     {"jobs": [{"s": 1, "pressure": 2.5, "sp_x": "1", "ps": {"x": 1, "y": 0}}, {"s": {"x": 1, "y": 2}, "pressure": 2.5, "ps": 0}], "subset": None, "subset_kind": "ids", "exclude_const": True, "diffs": [[0, 1]]},
     {"jobs": [{"a": 0, "b": {"d": 5, "c": {"x": 1, "y": 2, "z": 9, "w": {"p": 1, "q": 2}}}}, {"a": 0, "b": {"d": 5, "c": {"x": 3, "y": 4, "z": 9, "w": {"p": 2, "q": 1}}}},
               {"a": 0, "b": {"d": 6, "c": {"x": 3, "y": 2, "z": 9, "w": {"p": 1, "q": 1}}}}], "subset": None, "subset_kind": "ids", "exclude_const": True, "diffs": [[0, 1, 2], [0, 2]]},
+    {"jobs": [{"a": 1, "b": 1}, {"a": 2, "b": 1}, {"a": 3, "b": 2, "c": [1]}], "subset": [0, 1, 2], "subset_kind": "ids", "exclude_const": True, "removed": [2], "diffs": [[0, 1]]},
+    {"jobs": [{"a": 1, "b": 1}, {"a": 2, "b": 1}, {"a": 3, "b": 2, "c": [1]}], "subset": None, "subset_kind": "ids", "exclude_const": True, "removed": [2], "diffs": [[0, 1]]},
     {"jobs": [{"a": True}, {"a": 1}], "subset": None, "subset_kind": "ids", "exclude_const": True, "diffs": [[0, 1]]},
     {"jobs": [{"a": 1}, {"a": 1.0}, {"a": "1"}], "subset": [0, 1], "subset_kind": "jobs", "exclude_const": True, "diffs": [[0, 1, 2], [0]]},
     {"jobs": [{"a": 1, "n": {"x": 1, "y": 2}}, {"a": 1, "n": 3}, {"a": 1}], "subset": None, "subset_kind": "ids", "exclude_const": True, "diffs": [[0, 1, 2], []]},
